@@ -37,6 +37,9 @@ pub enum Name {
     Real(u8),
     /// the requester itself
     Requester,
+    /// the requester under one of its other names: 0 transport id, 1 application id, 2 hex of its DHT key
+    /// (the name routing-table entries carry), 3 hex of the DHT key of its application id
+    RequesterAlias(u8),
     /// the liar itself
     Me,
     /// a real node with a forged `distance` field claiming it sits on the key
@@ -230,6 +233,16 @@ async fn run_async(c: &Case) -> Verdict {
                     (nd.tid.clone(), nd.addr.to_string(), Some(key.to_vec()))
                 }
                 Name::Requester => (me.tid.clone(), me.addr.to_string(), None),
+                Name::RequesterAlias(a) => (
+                    match a % 4 {
+                        0 => me.tid.clone(),
+                        1 => me.app_id.clone(),
+                        2 => hex::encode(dht_key_of(&me.tid)),
+                        _ => hex::encode(dht_key_of(&me.app_id)),
+                    },
+                    me.addr.to_string(),
+                    None,
+                ),
                 Name::Me => (sid.clone(), addr.to_string(), None),
             };
             reply.push(DHTNode { peer_id: pid, address: addr_s, distance: dist, reliability: 1.0, cached_dht_key: None });
@@ -284,7 +297,12 @@ async fn run_async(c: &Case) -> Verdict {
         }
     }
     // ---- collect facts from the trace
-    let my_names: HashSet<String> = [me.tid.clone(), me.app_id.clone(), hex::encode(dht_key_of(&me.tid)), hex::encode(dht_key_of(&me.app_id))].into_iter().collect();
+    // the names under which the node can know itself: transport id, application id, hex of its DHT key (derived from
+    // the application id). With distinct application ids hex(key(transport id)) is just an unknown identifier.
+    let my_names: HashSet<String> = [me.tid.clone(), me.app_id.clone(), hex::encode(dht_key_of(&me.app_id))].into_iter().collect();
+    // a liar may attach the requester's own address to an identifier the requester cannot recognise as itself;
+    // dialling that address is then not a request to itself (the transport refuses the self-connection)
+    let own_addr_under_foreign_name = c.liars.iter().any(|l| l.names.iter().any(|nm| matches!(nm, Name::RequesterAlias(a) if a % 4 == 2 && c.distinct_app_ids)));
     let mut find_node_frames: Vec<(String, String)> = Vec::new(); // (to, msg id)
     let mut attempts: HashSet<String> = HashSet::new();
     let mut dials: HashSet<String> = HashSet::new();
@@ -325,7 +343,7 @@ async fn run_async(c: &Case) -> Verdict {
                 } else {
                     dials.insert(format!("addr:{addr}"));
                 }
-                if *addr == me.addr {
+                if *addr == me.addr && !own_addr_under_foreign_name {
                     v.fail(format!("{ID}/{site}/request-sent-to-the-local-node"), "dialled its own address".to_string());
                 }
             }
@@ -480,7 +498,7 @@ pub fn mode() -> impl Strategy<Value = Mode> {
     prop_oneof![3 => Just(Mode::Silent), 2 => Just(Mode::Dead), 2 => (1u32..1500).prop_map(Mode::Slow), 1 => (2100u32..4000).prop_map(Mode::Slow)]
 }
 fn name() -> impl Strategy<Value = Name> {
-    prop_oneof![4 => (0u8..12).prop_map(Name::Unknown), 4 => any::<u8>().prop_map(Name::Real), 1 => Just(Name::Requester), 1 => Just(Name::Me), 1 => any::<u8>().prop_map(Name::RealForgedDistance), 1 => (0u8..12).prop_map(Name::UnknownForgedDistance)]
+    prop_oneof![4 => (0u8..12).prop_map(Name::Unknown), 4 => any::<u8>().prop_map(Name::Real), 1 => Just(Name::Requester), 2 => (0u8..4).prop_map(Name::RequesterAlias), 1 => Just(Name::Me), 1 => any::<u8>().prop_map(Name::RealForgedDistance), 1 => (0u8..12).prop_map(Name::UnknownForgedDistance)]
 }
 
 pub fn case(max_n: u8) -> impl Strategy<Value = Case> {
